@@ -1940,6 +1940,7 @@ class TestGraph(object):
             test_node.objects[0], "all..noop", prefix="0", params=setup_dict
         )
         pre_node.results = list(test_node.results)
+        previous_tries = len(pre_node.results)
         pre_node.started_worker = worker
         status = await self.runner.run_test_node(pre_node)
         if not status:
@@ -1948,6 +1949,8 @@ class TestGraph(object):
                 object_vm,
                 object_image,
             )
+            # a failed configuration is a failed try of the installation
+            test_node.results += pre_node.results[previous_tries:]
             return status
 
         logging.info("Installing virtual machine %s", test_object.suffix)
